@@ -5,6 +5,8 @@ from mc import core, det, vnet, fe, sse
 PROPERTY = 'C09'
 ENGINE = 'E3 real client Service + real server + real websockets on the virtual network; exhaustive enumeration of client-reload / server-restart placements over the workflow'
 LEVEL = 'model_checking'
+DIRECTED_ADDITIONS = 'two interleaved services (incl. a 14-posting keyword and concurrent searches), patterned keys, 27 cleanup-timer variants, early client object, single-keyword databases, the CLI itself (JSON files, names, name collisions, fresh process per command and one long-lived process), a result above 1 MiB, composed/decomposed Unicode keywords, awkward sid characters, loopback-TCP replays'      # members added during the seeded-change campaign (DESIGN 7); counted under their own vacuity counters
+
 STEPS = ['create', 'genkey', 'encrypt', 'upload-config', 'upload-index', 'search1', 'search2']
 CHUNK = 16
 
@@ -72,6 +74,12 @@ def json_db_big():
 
 
 def describe(tier):
+    d = _describe(tier)
+    d['rule'] = d['rule'] + ' Directed additions: ' + DIRECTED_ADDITIONS + '.'
+    return d
+
+
+def _describe(tier):
     return {
         'rule': 'case = (scheme, JSON database, placement): all 9 schemes x 2 JSON databases (the repository\'s example_db.json; one with a ' 
                 '[plus, with 3 placements each: a one-keyword database of 4 postings and a one-keyword one-posting database] '
